@@ -9,7 +9,7 @@
    (1) for the whole pca_fit function; monotonicity of the explained variances. *)
 From Coq Require Import ZArith Floats.
 From mathcomp Require Import all_ssreflect all_algebra.
-From LS Require Import NumOps RcfOps F64Ops Kernels Preprocess Pca KernelsSpec NipalsSpec PcaRefine Gen_Params.
+From LS Require Import NumOps RcfOps F64Ops Kernels Preprocess Pca KernelsSpec NipalsSpec PcaRefine PcaFit Gen_Params.
 Set Implicit Arguments. Unset Strict Implicit. Unset Printing Implicit Defensive.
 Import Order.TTheory GRing.Theory Num.Theory.
 Local Open Scope ring_scope.
@@ -80,6 +80,22 @@ Example C01_f64_runs :
   | Err _ => false end = true.
 Proof. by vm_compute. Qed.
 
+(* the decomposition clause for the EXECUTABLE fit, for every run that returns (any data, missing
+   codes included, any number of inner iterations): E = sum_k t_k p_k' + E_res exactly *)
+Section ExecutableFit.
+Variable R : rcfType.
+Local Existing Instance RcfOps.
+Theorem C01_executable_decomposition n m fuel npc (E : seq (seq R)) (told : seq R) T P D ev Er its :
+  wf n m E -> (0 < n)%N ->
+  pca_components fuel npc E told [::] [::] [::] [::] [::] = Ok (T, P, D, ev, Er, its) ->
+  [/\ size T = npc, size P = npc, wf n m Er &
+      mx_of n m E = (\sum_(k < npc) cv_of n (nth [::] T k) *m (cv_of m (nth [::] P k))^T + mx_of n m Er)%R].
+Proof.
+move=> wE n0 /(pca_components_decomposition wE n0) [Tn [Pn [-> -> [sT sP] wEr dec]]].
+by split.
+Qed.
+End ExecutableFit.
+
 Print Assumptions C01_loadings_orthonormal.
 Print Assumptions C01_decomposition.
 Print Assumptions C01_residual_orthogonal.
@@ -87,3 +103,4 @@ Print Assumptions C01_pythagoras.
 Print Assumptions C01_all_components.
 Print Assumptions C01_all_variance_explained.
 Print Assumptions C01_inner_step_unit_rowspace.
+Print Assumptions C01_executable_decomposition.
